@@ -37,7 +37,7 @@ def dictify_complex_values(data: dict) -> dict:
     data = dict(data)
     for key, value in data.items():
         if isinstance(value, complex):
-            data[key] = {'real': value.real, 'imag': value.imag}
+            data[key] = {'real': float(value.real), 'imag': float(value.imag)}
     return data
 
 def undictify_complex_values(data: dict) -> dict:
@@ -51,7 +51,7 @@ def undictify_complex_values(data: dict) -> dict:
 
 def dictify_all_complex_values(data):
     if isinstance(data, complex):
-        return {'real': data.real, 'imag': data.imag}
+        return {'real': float(data.real), 'imag': float(data.imag)}
     if isinstance(data, dict):
         return {key: dictify_all_complex_values(value) for key, value in data.items()}
     if isinstance(data, list):
